@@ -505,6 +505,9 @@ struct InstRt {
     /// for adapter drives: the item sequence of a next()-driven shadow run of this instance
     shadow: Option<Vec<ItemRec>>,
     cursor: Cell<usize>,
+    /// a by-value collect_vec() returned an error of the solver itself while a fired fault was
+    /// pending: (class of that error, number of items taken by next() before the collect)
+    collect_own_err: Cell<Option<(ErrClass, u64)>>,
 }
 
 #[derive(Default)]
@@ -876,6 +879,8 @@ fn collect_once(rt: &Rc<InstRt>, ctx: &Rc<Ctx>, consume: bool) {
         catch_unwind(AssertUnwindSafe(|| it.by_ref_collect()))
     };
     let mut o = rt.o.borrow_mut();
+    let pending_before = o.own_err_after_fault;
+    let polls_before = o.polls;
     let (ok_items, ret) = match r {
         Ok(Ok(n)) => {
             if o.user_err_seen && n > 0 {
@@ -898,6 +903,15 @@ fn collect_once(rt: &Rc<InstRt>, ctx: &Rc<Ctx>, consume: bool) {
         Err(p) => (None, handle_panic(rt, ctx, &mut o, p)),
     };
     if consume {
+        // The iterator is gone. If what came back is an error of the solver itself although a
+        // fault has fired, nobody can poll on to see whether the user's error would follow: the
+        // question "is this the first error of the iteration?" is settled after the run against
+        // a next()-driven run of the same instance (execute_inner).
+        if o.own_err_after_fault > pending_before && !o.user_err_seen {
+            if let PollRet::Err(c, _) = &ret {
+                rt.collect_own_err.set(Some((*c, polls_before)));
+            }
+        }
         rt.done_driving.set(true);
     } else {
         update_driving(rt, ctx, &mut o);
@@ -1893,6 +1907,7 @@ fn execute_inner(spec: &RunSpec, budgets: &[Budget], opts: &ExecOpts) -> RunResu
             walked_after_end: Cell::new(false),
             shadow: shadows[i].clone(),
             cursor: Cell::new(0),
+            collect_own_err: Cell::new(None),
         })
     };
 
@@ -1944,6 +1959,39 @@ fn execute_inner(spec: &RunSpec, budgets: &[Budget], opts: &ExecOpts) -> RunResu
     // drop the links between instances so that everything is freed here
     for rt in &rts {
         rt.stub.borrow_mut().nested_target = None;
+    }
+    // "collect_vec returns that error": a by-value collect_vec() that came back with an error of
+    // the solver itself while a fault had fired is compared with the same instance driven by
+    // next(): if the first Err a next()-driven consumer meets (from where the collect started)
+    // is the user's, collect_vec() returned something else than that error
+    if !ctx.violated() {
+        for (i, rt) in rts.iter().enumerate() {
+            if let Some((class, from)) = rt.collect_own_err.get() {
+                let s = RunSpec {
+                    instances: vec![InstSpec { nested_every: 0, drive: Drive::Poll, extra_polls: 8, ..spec.instances[i].clone() }],
+                    sched_seed: 0,
+                    phased: false,
+                    solo_baselines: true,
+                };
+                let b = [budgets.get(i).copied().unwrap_or(Budget::REFERENCE)];
+                let r = execute(&s, &b, &ExecOpts { record: false, keep_tail: 0, rec_polls: false, check_isolation: false, rec_items: true });
+                let first_err = r.insts[0].items.iter().skip(from as usize).find_map(|x| match x {
+                    ItemRec::Err(c, _) => Some(*c),
+                    _ => None,
+                });
+                if r.violation.is_none() && first_err == Some(ErrClass::User) {
+                    ctx.violate(
+                        "not-surfaced",
+                        i as u32,
+                        format!(
+                            "collect_vec() returned Err({}), which does not carry the error the derivative returned at call {}, although the first Err a consumer calling next() meets is that user error",
+                            class.name(),
+                            rt.stub.borrow().fired.first().map(|t| crate::stub::tag_call(*t)).unwrap_or(0)
+                        ),
+                    );
+                }
+            }
+        }
     }
 
     for (i, rt) in rts.iter().enumerate() {
